@@ -79,6 +79,29 @@ def gen_effects(T):
         f"  ⟨{_s(e['fn'])}, {_s(e['cls'])}, {'true' if e['static'] else 'false'}, {'true' if e['public'] else 'false'}, [{', '.join(_s(r) for r in e['reads'])}], [{', '.join(wrec(w) for w in e['writes'])}]⟩"
         for e in fns) + "]\n\n"
     body += "def constCasts : List String := [" + ", ".join(_s(c) for c in a["constcasts"]) + "]\n\n"
+    # ---- extraction-side facts beyond the table ---------------------------------------------------------------------------
+    b = lambda x: "true" if x else "false"
+    sl = [(l, i) for l, i in locs if i["kind"] == "staticLocal"]       # constexpr ones included here
+    body += "/-- every function-local variable of static storage duration (all translation units + the all-headers unit) -/\n"
+    body += "def staticLocals : List StaticLocal := [\n" + ",\n".join(
+        f"  ⟨{_s(l)}, {_s(i['file'])}, {b(i['isConst'])}, {b(i.get('mutablePointee'))}, {_s(i.get('init', 'none'))}⟩" for l, i in sl) + "]\n\n"
+    body += "/-- data members that are pointers / references / iterators / smart pointers -/\n"
+    body += "def ptrMembers : List PtrMember := [\n" + ",\n".join(
+        f"  ⟨{_s(q)}, {_s(t)}, {b(pc)}, {_s(k)}, {_s(f)}⟩" for (q, t, pc, k, f) in a["ptrfields"]) + "]\n\n"
+    body += "/-- (const member function, pointer member, how): writes / non-const calls through a pointer member inside a const member function -/\n"
+    body += "def ptrWrites : List (String × String × String) := [" + ", ".join(f"({_s(x)}, {_s(y)}, {_s(z)})" for x, y, z in a["ptrwrites"]) + "]\n\n"
+    body += "/-- EVERY function with a body (constructors, non-const members, free functions included) that writes a variable of static storage, transitively -/\n"
+    body += "def staticWriters : List (String × List String) := [" + ", ".join(f"({_s(x)}, [{', '.join(_s(l) for l in ls)}])" for x, ls in a["static_writers"]) + "]\n\n"
+    body += "/-- (class, static locations read, static locations written) by the constructors of the class, transitively -/\n"
+    body += "def ctorStatics : List (String × List String × List String) := [" + ", ".join(
+        f"({_s(c)}, [{', '.join(_s(l) for l in rs)}], [{', '.join(_s(l) for l in ws)}])" for c, rs, ws in a["ctor_statics"]) + "]\n\n"
+    ts = a["textscan"]
+    body += "/-- clang-independent text scan of every file under include/GeographicLib and src: declarators following the keyword `mutable` -/\n"
+    body += "def mutableTextScan : List (String × String) := [" + ", ".join(f"({_s(f)}, {_s(n)})" for f, n in ts["mutable"]) + "]\n"
+    body += "def constCastTextScan : List String := [" + ", ".join(_s(f) for f in ts["const_cast"]) + "]\n"
+    body += f"def scannedFiles : Nat := {ts['nfiles']}\n"
+    body += f"/-- translation units analysed (src/*.cpp + one unit including every public header with the class templates instantiated) and the headers it includes -/\n"
+    body += f"def unitsAnalysed : Nat := {len(a['units'])}\ndef headersIncluded : List String := [" + ", ".join(_s(h) for h in a["headers"]) + "]\n\n"
     # ---- AuxLatitude: which coefficient blocks each constructor fills ---------------------------------------------------
     hdr = T.preprocess("include/GeographicLib/AuxLatitude.hpp")
     env = dict(T.enum_body(hdr, "aux"))
@@ -133,4 +156,6 @@ def gen_effects(T):
     T.digest.append(f"Effects: {len(fns)} const/static member functions ({a['nfuncs']} bodies), {len(nw)} with writes on tracked locations; "
                     f"{sum(1 for l, i in locs if i['kind'] == 'mutableMember')} mutable members, "
                     f"non-const statics: {[l for l, i in locs if i['kind'] != 'mutableMember' and not i['isConst']]}; const_cast: {len(a['constcasts'])}; "
+                    f"{len(sl)} function-local statics; pointer members {[x[0] for x in a['ptrfields']]}, writes through them: {len(a['ptrwrites'])}; "
+                    f"classes whose constructors touch static state: {[c for c, _, _ in a['ctor_statics']]}; text scan: {len(ts['mutable'])} mutable declarators in {ts['nfiles']} files; "
                     f"AuxLatitude ctors fill {[len(bl) for _, bl in filled]} of {env['AUXNUMBER'] * (env['AUXNUMBER'] - 1)} blocks; FFT sizes {[mult * n for n in sizesN]}")
